@@ -423,6 +423,18 @@ func runC16(p *core.Prog, r *core.Report, tier string) {
 	nL := checkNestedMapWrites(p, r, ds, "C16.l", p.SrcFuncs())
 	r.Floor("C16.l nested map inserts", nL, 3)
 
+	// ---- (m) a helper of the program that can return nil without an error obliges its callers to test the result ----
+	nM := 0
+	for _, f := range p.SrcFuncs() {
+		for _, nd := range core.NilNilDerefs(ds, f, func(c *ssa.Call) []*ssa.Function { return p.CalleesAt(f, c) }) {
+			nM++
+			r.Violate("C16.m", fmt.Sprintf("%s|nil-result-deref|%s", core.FnKey(f), ds.D(nd.Value).String()), p.Pos(nd.Use.Pos()), "dereference of a call result that "+nd.Why+", without a nil test", p.WitnessText(nd.Witness)...)
+		}
+	}
+	if nM == 0 {
+		r.Hold("C16.m", "no-nil-without-error-deref", "", "no result of a program function that can be nil without an error is dereferenced untested")
+	}
+
 	r.Assumptions = append(r.Assumptions, "quotients of chain-specification constants held in service fields (sync committee size / subnet count / target aggregators) are not zero on a real chain")
 	sort.Strings(r.OutOfScope)
 }
